@@ -29,7 +29,7 @@ RULE = (
 )
 ASSUMPTIONS = ["files are content-addressed (<sha1>.csv) except in the labelled same-path sub-scenario", "each fresh process costs ~0.4 s; sequences are therefore few but each is compared five ways"]
 
-HOSTILE_HEADERS = ['"q', 'a,b', ' sp ', 'two\nlines', 'semi;colon', "it's", '""', 'x|y', 'tab\there', 'é', '`tick`', '', 'c d']
+HOSTILE_HEADERS = ['; name', ', qty ', 'a |', '` t', '"q', 'a,b', ' sp ', 'two\nlines', 'semi;colon', "it's", '""', 'x|y', 'tab\there', 'é', '`tick`', '', 'c d']
 
 
 def plan(tier, seed):
